@@ -275,7 +275,7 @@ func (s *Session) Run(ctx context.Context, dir string, args ...string) error {
 							if err != nil {
 								return err
 							}
-							if bss != nil {
+							if 0 < len(bss) {
 								if 1 < len(bss) {
 									log.Printf("warning: multiple Bindingss")
 								}
@@ -299,7 +299,7 @@ func (s *Session) Run(ctx context.Context, dir string, args ...string) error {
 									}
 								}
 							}
-							if bss != nil {
+							if 0 < len(bss) {
 								output.Bindingss = bss
 								if output.Inverted {
 									return fmt.Errorf("undesired output %s", JS(output))
